@@ -1288,45 +1288,60 @@ class TensorDictParams(TensorDictBase, nn.Module):
     @_apply_on_data
     def apply_(self, fn: Callable, *others, **kwargs) -> T: ...
 
+    def _relock_param_td(self):
+        # `_apply` swaps `_param_td` for an (unlocked) copy: when this instance is locked,
+        # the copy must join its lock graph like the tensordict it replaces
+        if self._is_locked and not self._param_td.is_locked:
+            self._param_td._propagate_lock(
+                self._lock_parents_weakrefs + [weakref.ref(self)],
+                is_compiling=is_compiling(),
+            )
+
     @implement_for("torch", "2.1")
     def _apply(self, fn, recurse=True):
         self._param_td._erase_cache()
         param_td = self._param_td
         self._param_td = param_td.copy()
-        # Keep a list of buffers to update .data only
-        bufs = dict(self._buffers)
-        out: TensorDictBase = super()._apply(fn, recurse=recurse)
-        for key, val in bufs.items():
-            val.data = self._buffers[key].data
-            self._buffers[key] = val
-        # Check device and shape
-        cbs = out._check_batch_size(raise_exception=False)
-        if not cbs:
-            out.auto_batch_size_()
-        cd = out._check_device(raise_exception=False)
-        if not cd:
-            out.auto_device_()
-        return out
+        try:
+            # Keep a list of buffers to update .data only
+            bufs = dict(self._buffers)
+            out: TensorDictBase = super()._apply(fn, recurse=recurse)
+            for key, val in bufs.items():
+                val.data = self._buffers[key].data
+                self._buffers[key] = val
+            # Check device and shape
+            cbs = out._check_batch_size(raise_exception=False)
+            if not cbs:
+                out.auto_batch_size_()
+            cd = out._check_device(raise_exception=False)
+            if not cd:
+                out.auto_device_()
+            return out
+        finally:
+            self._relock_param_td()
 
     @implement_for("torch", None, "2.1")
     def _apply(self, fn):  # noqa: F811
         self._param_td._erase_cache()
         param_td = self._param_td
         self._param_td = param_td.copy()
-        # Keep a list of buffers to update .data only
-        bufs = dict(self._buffers)
-        out: TensorDictBase = super()._apply(fn)
-        for key, val in bufs.items():
-            val.data = self._buffers[key].data
-            self._buffers[key] = val
-        # Check device and shape
-        cbs = out._check_batch_size(raise_exception=False)
-        if not cbs:
-            out.auto_batch_size_()
-        cd = out._check_device(raise_exception=False)
-        if not cd:
-            out.auto_device_()
-        return out
+        try:
+            # Keep a list of buffers to update .data only
+            bufs = dict(self._buffers)
+            out: TensorDictBase = super()._apply(fn)
+            for key, val in bufs.items():
+                val.data = self._buffers[key].data
+                self._buffers[key] = val
+            # Check device and shape
+            cbs = out._check_batch_size(raise_exception=False)
+            if not cbs:
+                out.auto_batch_size_()
+            cd = out._check_device(raise_exception=False)
+            if not cd:
+                out.auto_device_()
+            return out
+        finally:
+            self._relock_param_td()
 
 
 TDPARAM_HANDLED_FUNCTIONS = copy(TD_HANDLED_FUNCTIONS)
